@@ -23,11 +23,6 @@ vars == <<pc, task, first, res>>
 VHash(v) == 100003 + DotFrom(v, [i \in 1..Len(v) |-> 7 * i * i + 3 * i + 1], 1)
 Keep(v, s) == VHash(v) % s = Seed % s
 
-\* conic through five points (bracket formula), symmetrised
-ConicThrough5(a, b, c, d, e) ==
-  LET ace == Det3(<<a, c, e>>) bde == Det3(<<b, d, e>>) ade == Det3(<<a, d, e>>) bce == Det3(<<b, c, e>>)
-      M == MatAdd(MatScale(ace * bde, Outer(Cross(a, d), Cross(b, c))), MatScale(-(ade * bce), Outer(Cross(a, c), Cross(b, d))))
-  IN MatAdd(M, Transpose(M))
 GenPos5(P) == \A i, j, k \in 1..5 : (i < j /\ j < k) => Det3(<<P[i], P[j], P[k]>>) # 0
 
 \* translate a quadric given in coordinates Y = X - c w : M' = T^T M T with T = [[I, -c], [0, 1]]
